@@ -69,6 +69,10 @@ def run_hp_ring(res, bdir):
 def run(res, pid, extra_targets=()):
     bdir = os.path.join(BUILD, pid)
     lib = None
+    try:
+        regen_consts104()
+    except BuildError as e:
+        res.violation("tie-or-proof-broken", str(e)[:900], {"no_longer_checks": ["translate/consts104.c -> lean/Iec/Gen/Consts104.lean"]}, found_input=False)
     proof_ok, plog = proof_stage(res, pid, extra_targets)
     tie_ok, diffs, n_ops, histo, crash, out = True, [], 0, "", None, ""
     ops, impl, model = (os.path.join(bdir, x) for x in ("ops.txt", "impl.txt", "model.txt"))
